@@ -7,6 +7,8 @@ C02.d the published dependences are generate_dependences(order, location) follow
 C02.e unification windows cover every access between the two unified ones
 C02.f dependence scans are exhaustive
 C02.g different address terms are dependent
+C02.h memory/storage simplification preserves the access sequence's effect
+C02.i exactly the dead loads leave the access order
 """
 import ast
 import re
